@@ -101,5 +101,6 @@ Proof.
       let v := eval vm_compute in kl in change kl with v end;
     (apply xy_encoding; [discriminate | |]);
     match goal with |- _ <= ?z < 256 ^ ?w =>
-      assert (Hpow : 2 ^ _ <= 256 ^ w) by (vm_compute; discriminate); lia end.
+      match type of Hx with _ <= _ < 2 ^ ?b =>
+        assert (Hpow : 2 ^ b <= 256 ^ w) by (vm_compute; discriminate); lia end end.
 Qed.
